@@ -24,7 +24,7 @@ import os
 
 WATCH = (os.path.join(runner.REPO, 'clastic') + os.sep, '<sinter')
 
-VALUES = ['v', '', 'é-ünï-☃', '<b>&=?;,"\\', 0, 1, -7, 2.5, 1e100, True, False, None, [], {}, [1, [2, [3]]],
+VALUES = ['L' * 3300, 'v', '', 'é-ünï-☃', '<b>&=?;,"\\', 0, 1, -7, 2.5, 1e100, True, False, None, [], {}, [1, [2, [3]]],
           {'a': {'b': [None, 'x']}}, 'a' * 200, ' ', '+/=', [{'k': 'v'}, 2],
           # JSON texts whose base64 needs the '+' and '/' digits, at every alignment
           'what?', '->', 'a->', 'ab->', '~', 'x~', 'xy~', '???', '>>>', '?>~', 'a?b>c~d', ['?', '>', '~'], {'q?': '>~'}, '\x7f', 'ÿþý',
@@ -66,6 +66,8 @@ def _impl(request, cookie):
     act = a.get('act', 'read')
     if act == 'set':
         cookie[a['k']] = json.loads(a['v'])
+    elif act == 'logout':
+        cookie.set_expires()          # the documented way to end a session: the cookie is stamped as long expired
     elif act == 'push':
         # the usual way to keep a list in a session: fetch it, change it, store it back (the SAME object)
         lst = cookie.get(a['k'], [])
@@ -77,7 +79,8 @@ def _impl(request, cookie):
         cookie.pop(a['k'], None)
     elif act == 'clear':
         cookie.clear()
-    return Response(json.dumps({'before': before, 'after': dict(cookie)}), mimetype='application/json')
+    after = dict((k, v) for k, v in cookie.items() if not (act == 'logout' and k == '_expires'))
+    return Response(json.dumps({'before': before, 'after': after}), mimetype='application/json')
 
 
 def jcanon(x):
@@ -163,7 +166,7 @@ class C16(Check):
     level_text = ('Seeded search over client/clock/tamper histories with a token-registry oracle; the space is '
                   'unbounded (byte strings x times), so sampling with targeted boundary steps is the honest level.')
     level_note = 'Trusted: HMAC-SHA1 itself; the harness registry of issued tokens; simulated clock seams.'
-    required_probes = ('nested-value-changed-and-stored-back', 'binary-secret-key', 'other-servers-token-presented', 'other-servers-token-presented-to-binary-keyed-server', 'server-not-in-utc', 'concurrent-clients', 'two-cookie-servers', 'expired-empty', 'valid-at-exact-expiry', 'tamper-empty', 'tamper-source-data',
+    required_probes = ('session-ended-by-the-application', 'nested-value-changed-and-stored-back', 'binary-secret-key', 'other-servers-token-presented', 'other-servers-token-presented-to-binary-keyed-server', 'server-not-in-utc', 'concurrent-clients', 'two-cookie-servers', 'expired-empty', 'valid-at-exact-expiry', 'tamper-empty', 'tamper-source-data',
                        'cross-client-seen', 'replay-old-token', 'backward-jump-valid-again')
 
     def gen_config(self, rng):
@@ -215,7 +218,7 @@ class C16(Check):
                 ops.append(conc_op())
                 continue
             if i < nc or r < 0.35:
-                act = rng.choice(['set', 'set', 'set', 'del', 'read', 'read', 'clear', 'push', 'push'])
+                act = rng.choice(['set', 'set', 'set', 'del', 'read', 'read', 'clear', 'push', 'push', 'logout'])
                 op = {'op': 'req', 'c': c, 'act': act, 'k': rng.choice(KEYS[:4] if rng.random() < 0.8 else KEYS),
                       'v': rng.choice(VALUES), 'jitter': []}
                 if erng.random() < 0.15:
@@ -371,7 +374,7 @@ class _State(object):
         times = [t0] + values + [self.clock.now]
         return ex, min(times), max(times)
 
-    def record_issue(self, c, ex, tmin, tmax, after):
+    def record_issue(self, c, ex, tmin, tmax, after, forced_exp=None):
         """Register a token the server just issued; check its announced expiry."""
         res = self.res
         for raw in ex.header_all('Set-Cookie'):
@@ -387,7 +390,10 @@ class _State(object):
             if 'expires' in attrs:
                 exp = int(parsedate_to_datetime(attrs['expires']).timestamp())
             K = 'C16/expiry-announced/'
-            if self.numeric:
+            if forced_exp is not None:
+                if exp != forced_exp:
+                    res.violate(K + 'logout', 'step %s: the application stamped the cookie expired (%d) but Set-Cookie announces %r' % (self.step, forced_exp, exp))
+            elif self.numeric:
                 e = self.cfg['expiry']
                 if exp is None:
                     res.violate(K + 'missing', 'step %s: numeric expiry %r but Set-Cookie has no Expires: %r' % (self.step, e, raw))
@@ -532,7 +538,12 @@ class _State(object):
             if jcanon(body['after']) != jcanon(new):
                 res.violate('C16/endpoint-echo-inconsistent', 'harness endpoint: %r' % body)
                 return
-            issued = self.record_issue(c, ex, tmin, tmax, new)
+            issued = self.record_issue(c, ex, tmin, tmax, new, forced_exp=123456 if act == 'logout' else None)
+            if act == 'logout':
+                self.res.probe('session-ended-by-the-application')
+                if not issued:
+                    res.violate('C16/not-saved', 'step %s client %d: logout but no Set-Cookie' % (self.step, c))
+                    return
             if issued:
                 self.model[c] = new
             elif jcanon(new) != jcanon(before) or (self.numeric and sent is not None):
@@ -559,7 +570,8 @@ class _State(object):
         else:
             cur = self.current(op['c'])
             r = self.registry.get(_unq(cur)) if cur else None
-            if r is None or r['exp'] is None:
+            if r is None or r['exp'] is None or r['exp'] < self.clock.start:
+                # (a cookie the application stamped as long expired: no travelling back to 1970)
                 self.clock.advance(1.0)
             else:
                 was_expired = self.clock.now > r['exp']
